@@ -1,4 +1,4 @@
-(* C03: semantic obligations for basis configurations 128 .. 191 of all_cfgs (20 gate kinds each) *)
+(* C03: semantic obligations (every canonical basis configuration) for the gate kinds of slice 2 *)
 From QV Require Import Model.Resolve Proofs.ResolveChkDefs.
-Lemma chk_sem_2 : sem_ok (slice 2) = true.
+Lemma chk_sem_2 : obls_ok (kslice 2) = true.
 Proof. vm_compute. reflexivity. Qed.
